@@ -38,6 +38,8 @@ pub struct Piece {
     pub kind: PieceKind,
     /// applied change set of the writer when this piece was written
     pub writer_set: BTreeSet<Hash>,
+    /// changes the writer was holding back (queued) that this piece retains (save with orphans)
+    pub orphans: BTreeSet<Hash>,
 }
 
 #[derive(Clone, Copy, Debug, PartialEq)]
@@ -266,6 +268,9 @@ impl World {
         let rep = &mut self.reps[r];
         rep.clock += 1;
         let h = rep.doc.commit_with(CommitOptions::default().with_time(rep.clock));
+        if let (Some(h), true) = (h, rep.isolated.is_some()) {
+            rep.isolated = Some(vec![h.0]);
+        }
         self.harvest(r);
         h.map(|h| h.0)
     }
@@ -278,15 +283,12 @@ impl World {
             // never harvest with an open transaction: get_changes would auto-commit
             return vec![];
         }
-        if rep.isolated.is_some() {
-            // get_heads/get_changes are scoped under isolation; harvest when integrated
-            return vec![];
-        }
-        let heads = rep.doc.get_heads();
+        // `document()` is the unscoped view: under isolation AutoCommit::get_heads reports the isolation heads
+        let heads = rep.doc.document().get_heads();
         if heads == rep.last_heads {
             return vec![];
         }
-        let new = rep.doc.get_changes(&rep.last_heads);
+        let new = rep.doc.document().get_changes(&rep.last_heads);
         rep.last_heads = heads;
         let mut fresh = Vec::new();
         for ch in new {
@@ -312,8 +314,8 @@ impl World {
         let step = self.step;
         let rep = &mut self.reps[r];
         rep.known.clear();
-        rep.last_heads = rep.doc.get_heads();
-        for ch in rep.doc.get_changes(&[]) {
+        rep.last_heads = rep.doc.document().get_heads();
+        for ch in rep.doc.document().get_changes(&[]) {
             let h = ch.hash().0;
             rep.known.insert(h);
             if !self.reg.contains(&h) {
@@ -674,11 +676,17 @@ impl World {
                     o = o.with_message(m.clone());
                 }
                 let h = rep.doc.commit_with(o).map(|h| h.0);
+                if let (Some(h), true) = (h, rep.isolated.is_some()) {
+                    rep.isolated = Some(vec![h]);
+                }
                 self.harvest(r);
                 Outcome::Committed { r, hash: h }
             }
             Ev::EmptyChange { r, dt } => {
                 let r = self.rsel(*r);
+                if self.reps[r].isolated.is_some() {
+                    return Outcome::Nop;
+                }
                 self.commit_pending(r);
                 let rep = &mut self.reps[r];
                 rep.clock += *dt;
@@ -800,6 +808,9 @@ impl World {
                 self.reps.push(nr);
                 let new = self.reps.len() - 1;
                 self.reharvest(new);
+                // a fork is a clone: it also carries the parent's held-back changes
+                let held: Vec<Hash> = self.reps[r].delivered.difference(&self.reps[r].known).cloned().collect();
+                self.reps[new].delivered.extend(held);
                 Outcome::Forked { r, new }
             }
             Ev::ForkAt { r, heads } => {
@@ -858,13 +869,7 @@ impl World {
                     return Outcome::Nop;
                 }
                 // commit under isolation first so that the isolated chain is complete
-                {
-                    let rep = &mut self.reps[r];
-                    if rep.doc.pending_ops() > 0 {
-                        rep.clock += 1;
-                        rep.doc.commit_with(CommitOptions::default().with_time(rep.clock));
-                    }
-                }
+                self.commit_pending(r);
                 self.reps[r].doc.integrate();
                 self.reps[r].isolated = None;
                 self.harvest(r);
@@ -881,10 +886,16 @@ impl World {
                     deflate: *deflate,
                     retain_orphans: *orphans,
                 });
+                let held: BTreeSet<Hash> = if *orphans {
+                    rep.delivered.difference(&rep.known).cloned().collect()
+                } else {
+                    BTreeSet::new()
+                };
                 rep.disk.current = vec![Piece {
                     bytes,
                     kind: PieceKind::Save,
                     writer_set: rep.known.clone(),
+                    orphans: held,
                 }];
                 Outcome::Saved { r }
             }
@@ -902,16 +913,19 @@ impl World {
                 if rep.disk.current.is_empty() {
                     // first write of a file is always a full save
                     let bytes = rep.doc.save();
+                    let held: BTreeSet<Hash> = rep.delivered.difference(&rep.known).cloned().collect();
                     rep.disk.current.push(Piece {
                         bytes,
                         kind: PieceKind::Save,
                         writer_set: rep.known.clone(),
+                        orphans: held,
                     });
                 } else {
                     rep.disk.current.push(Piece {
                         bytes,
                         kind: PieceKind::Incremental,
                         writer_set: rep.known.clone(),
+                        orphans: BTreeSet::new(),
                     });
                 }
                 Outcome::Saved { r }
@@ -1097,9 +1111,10 @@ impl World {
                 }
             }
             WireEnc::FullSave => {
-                let all: Vec<Hash> = rep.known.iter().cloned().collect();
+                // save() retains orphans by default: the stream also carries what the sender holds back
+                let all: Vec<Hash> = rep.known.union(&rep.delivered).cloned().collect();
                 Packet {
-                    blobs: vec![rep.doc.save()],
+                    blobs: vec![rep.doc.document().save()],
                     stream: true,
                     batch,
                     hashes: all,
@@ -1167,22 +1182,26 @@ impl World {
             return Outcome::Nop;
         }
         let d = &self.reps[r].disk;
-        let file: Vec<u8> = match kind {
-            CrashKind::Clean => Disk::bytes_of(&d.current),
-            CrashKind::LoseUnsynced => Disk::bytes_of(&d.durable),
-            CrashKind::Torn(n) => {
-                let mut b = Disk::bytes_of(&d.current);
+        let (file, surviving_orphans): (Vec<u8>, BTreeSet<Hash>) = {
+            let pieces: &[Piece] = match kind {
+                CrashKind::Clean | CrashKind::Torn(_) => &d.current,
+                CrashKind::LoseUnsynced => &d.durable,
+                CrashKind::Stale(k) => {
+                    if d.snapshots.is_empty() {
+                        &d.durable
+                    } else {
+                        &d.snapshots[k as usize % d.snapshots.len()]
+                    }
+                }
+            };
+            let mut b = Disk::bytes_of(pieces);
+            let mut orph: BTreeSet<Hash> = pieces.iter().flat_map(|p| p.orphans.iter().cloned()).collect();
+            if let CrashKind::Torn(n) = kind {
                 let cut = n as usize % (b.len() + 1);
                 b.truncate(cut);
-                b
+                orph.clear();
             }
-            CrashKind::Stale(k) => {
-                if d.snapshots.is_empty() {
-                    Disk::bytes_of(&d.durable)
-                } else {
-                    Disk::bytes_of(&d.snapshots[k as usize % d.snapshots.len()])
-                }
-            }
+            (b, orph)
         };
         self.stats.bump(&format!("fault.crash.{}", crash_name(kind)));
         // all sessions of r die with it (in-flight messages lost, sync state lost unless persisted)
@@ -1243,6 +1262,7 @@ impl World {
                 bytes: file,
                 kind: PieceKind::Save,
                 writer_set: back,
+                orphans: surviving_orphans.clone(),
             };
             rep.disk.current = vec![p.clone()];
             rep.disk.durable = vec![p];
@@ -1251,6 +1271,9 @@ impl World {
             rep.disk.durable = vec![];
         }
         self.reharvest(r);
+        if res.is_ok() {
+            self.reps[r].delivered.extend(surviving_orphans.iter().cloned());
+        }
         Outcome::Restarted {
             r,
             loaded: res,
@@ -1322,6 +1345,11 @@ impl World {
         let fresh = self.harvest(t);
         self.reps[t].delivered.extend(fresh);
         Outcome::SyncRecv { from: f, to: t, result: res }
+    }
+
+    /// full report of the applied set through the unscoped `Automerge` view (requires no open transaction)
+    pub fn applied_set_unscoped(&mut self, r: usize) -> BTreeSet<Hash> {
+        self.reps[r].doc.document().get_changes(&[]).iter().map(|c| c.hash().0).collect()
     }
 
     /// the document's own report of its applied set (full, not incremental)
